@@ -123,7 +123,7 @@ def run_task(task, repo=None, max_paths=MAX_PATHS):
             ob.status, ob.backend, ob.reason, ob.time = "unknown", "z3", "not attempted: 5 earlier obligations of this task timed out", 0.0
         else:
             try:
-                discharge(ob, ctx.axioms, task.timeout_ms)
+                discharge(ob, ctx.axioms, task.timeout_ms, witness=ctx.witness)
             except Exception:
                 ob.status = "unknown"
                 ob.reason = traceback.format_exc()[-500:]
@@ -135,6 +135,8 @@ def run_task(task, repo=None, max_paths=MAX_PATHS):
             o["lineno"] = ob.meta["lineno"]
         if ob.status == "refuted" and ob.model is not None:
             o["model"] = model_to_json(ob.model)
+            if ob.witness is not None:
+                o["witness"] = ob.witness
         if ob.status == "unknown":
             o["reason"] = ob.reason
         rec["obligations"].append(o)
